@@ -195,9 +195,8 @@ class Curve(BSpline.Curve):
         super(Curve, self).reset(ctrlpts=reset_ctrlpts, evalpts=reset_evalpts)
 
         if reset_ctrlpts:
-            # Delete the caches
-            self._cache['ctrlpts'] = self._init_array()
-            self._cache['weights'][:] = self._init_array()
+            # Re-initialize the caches
+            self.init_cache()
 
 
 @export
